@@ -313,7 +313,7 @@ Proof.
   assert (Hk : 0 <= (if d <=? cur s then cur s - d else cur s - d + count s) <= 255)
     by (destruct (Z.leb_spec d (cur s)); lia).
   rewrite ring_key_byte by exact Hk. cbn [obind]. unfold get_snapshot. rewrite Hr.
-  f_equal. unfold slot_val, dist. zcmp; cbn [default]; try zfin. Show.
+  f_equal. unfold slot_val, dist. zcmp; cbn [default from_option]; unfold id; zfin.
 Qed.
 
 Lemma snapshot_by_epoch_spec s e :
@@ -497,7 +497,7 @@ Section Hist.
     nodes2 s' = nodes2 s.
   Proof.
     intros Hi H Hne Hnr. destruct (is_cand_op o) eqn:Hop.
-    { pose proof (nexec_cand_frame _ _ _ _ _ _ Hop H) as (H1 & H2 & H3 & H4 & H5 & H6 & _). auto. }
+    { pose proof (nexec_cand_frame _ _ _ _ _ _ _ Hop H) as (H1 & H2 & H3 & H4 & H5 & H6 & _). auto. }
     destruct o; try discriminate Hop.
     - by destruct (Hne e).
     - by destruct (Hnr n).
@@ -518,30 +518,29 @@ Section Hist.
     unfold Netmap.nstep in Hcons. cbn [fst snd] in Hcons. rewrite He in Hcons. cbn [fst snd] in Hcons.
     split; [exact Ht'|]. cbn [fst snd].
     destruct o.
-    - (* NewEpoch *)
+    1:{ (* NewEpoch *)
       specialize (Hcons e eq_refl eq_refl). destruct Ht as (Hro & Hs & Hep & Hlb).
       rewrite nexec_new_epoch in He by assumption.
       destruct (alpha c && (epoch s <? e) && _); [|discriminate]. injection He as <- <-.
       split; [by apply ring_inv_tick|].
       intros Hlt. assert (Hlt' : e < 2 ^ 32).
       { revert Hlt. unfold tick_result. cbv zeta. rewrite tick_state_eq. cbn. lia. }
-      apply lists_inv_tick; try assumption. apply Hl. lia.
-    - (* candidate and other operations: frame *)
-      all: try (
-        assert (Hf := nexec_other_frame _ _ _ _ _ Ht He ltac:(discriminate) ltac:(discriminate));
-        destruct Hf as (F1 & F2 & F3 & F4 & F5);
-        split;
-        [ destruct Hr as ((Hc & Hi) & Hw & Hrr); split; [split; rewrite ?F2, ?F3; assumption|];
-          split; [rewrite F2; exact Hw|]; intros i; rewrite F4, F3, F2, F1; apply Hrr
-        | intros Hlt; rewrite F1 in Hlt; destruct (Hl Hlt) as (L1 & L2 & L3 & L4);
-          split; [rewrite F2; exact L1|]; split; [exact L2|];
-          unfold in_win2, lists_of; rewrite F1, F5; split; assumption ]).
-      (* UpdateSnapshotCount *)
+      apply lists_inv_tick; try assumption. apply Hl. lia. }
+    7:{ (* UpdateSnapshotCount *)
       cbn [Netmap.nexec] in He. inv_ob He. injection He as <- <-.
       split; [by eapply ring_inv_resize|].
       pose proof Eo as Eo'. apply usc_inv in Eo' as (Hn & Hne & r2 & _ & ->). cbn [epoch].
       intros Hlt. destruct Ht as (Hro & _ & Hep & _).
-      apply lists_inv_resize; try assumption; [by apply Hl|lia].
+      apply lists_inv_resize; try assumption; [by apply Hl|lia]. }
+    (* candidate and other operations: frame *)
+    all: assert (Hf := nexec_other_frame _ _ _ _ _ Ht He ltac:(discriminate) ltac:(discriminate));
+      destruct Hf as (F1 & F2 & F3 & F4 & F5);
+      split;
+      [ destruct Hr as ((Hc & Hi) & Hw & Hrr); split; [split; rewrite ?F2, ?F3; assumption|];
+        split; [rewrite F2; exact Hw|]; intros i; rewrite F4, F3, F2, F1; apply Hrr
+      | intros Hlt; rewrite F1 in Hlt; destruct (Hl Hlt) as (L1 & L2 & L3 & L4);
+        split; [rewrite F2; exact L1|]; split; [exact L2|];
+        unfold in_win2, lists_of; rewrite F1, F5; split; assumption ].
   Qed.
 
   Lemma fold_gstep_inv ops : forall sh,
@@ -562,3 +561,78 @@ Section Hist.
     split; [apply ninit_tick_inv|]. split; [apply ninit_ring_inv|]. intros _. apply ninit_lists_inv.
   Qed.
 End Hist.
+
+(** * Corollaries used by Props/C08.v *)
+
+Lemma slot_of_age id d K : 0 <= id < K -> 0 <= d < K ->
+  (id - d) mod K = if d <=? id then id - d else id - d + K.
+Proof.
+  intros Hi Hd. destruct (Z.leb_spec d id).
+  - apply Z.mod_small. lia.
+  - symmetry. apply (Z.mod_unique_pos _ _ (-1)); lia.
+Qed.
+
+Lemma ring_inv_by_age s h :
+  ring_inv s h ->
+  (forall d, 0 <= d < win h -> ring s !! ((cur s - d) mod count s) = Some (pubL h (epoch s - d))) /\
+  (forall d, win h <= d < count s -> ring s !! ((cur s - d) mod count s) = None) /\
+  (forall i, i < 0 \/ count s <= i -> ring s !! i = None).
+Proof.
+  intros ((Hc & Hi) & Hw & Hr). repeat split.
+  - intros d Hd. rewrite slot_of_age by lia. rewrite Hr. unfold slot_val, dist. zcmp; zfin.
+  - intros d Hd. rewrite slot_of_age by lia. rewrite Hr. unfold slot_val, dist. zcmp; zfin.
+  - intros i Hout. rewrite Hr. unfold slot_val. zcmp; zfin.
+Qed.
+
+Section Corollaries.
+  Variable sub_ok : bytes -> bool.
+  Variable sub_accepts : bytes -> Z -> bool.
+  Notation nexec := (nexec sub_ok sub_accepts).
+
+  Lemma resize_step_inv c s h n s' ns :
+    c08_inv (s, h) -> nexec c s (UpdateSnapshotCount n) = Halt (s', ns) ->
+    c08_inv (s', h_resize h n) /\ epoch s' = epoch s /\ count s' = n /\ ns = [] /\
+    1 <= n <= 254 /\ n <> count s /\ alpha c = true.
+  Proof.
+    intros Hi He.
+    pose proof (gstep_inv sub_ok sub_accepts (s, h) (c, UpdateSnapshotCount n) Hi) as Hg.
+    unfold gstep, nstep in Hg. cbn [fst snd] in Hg. rewrite He in Hg.
+    split; [apply Hg; intros e [=]|].
+    cbn [Netmap.nexec] in He. inv_ob He. injection He as <- <-.
+    apply usc_inv in Eo as (Hn & Hne & r2 & _ & ->). cbn. repeat split; try assumption; lia.
+  Qed.
+
+  Lemma tick_step_inv c s h e s' ns :
+    c08_inv (s, h) -> nexec c s (NewEpoch e) = Halt (s', ns) -> e = epoch s + 1 ->
+    c08_inv (s', h_tick h e (count s) (filter_netmap s) (cands2 s)) /\ epoch s' = e /\ count s' = count s.
+  Proof.
+    intros Hi He ->.
+    pose proof (gstep_inv sub_ok sub_accepts (s, h) (c, NewEpoch (epoch s + 1)) Hi) as Hg.
+    unfold gstep, nstep in Hg. cbn [fst snd] in Hg. rewrite He in Hg.
+    split; [apply Hg; intros e [= <-]; reflexivity|].
+    destruct Hi as ((Hro & Hs & _) & _). cbn [fst] in *.
+    rewrite nexec_new_epoch in He by assumption.
+    destruct (alpha c && _ && _); [|discriminate]. injection He as <- <-.
+    unfold tick_result. cbv zeta. rewrite tick_state_eq. cbn. split; reflexivity.
+  Qed.
+
+  (** Any state with the basic invariant can tick. *)
+  Lemma can_tick c s :
+    tick_inv s -> alpha c = true ->
+    (forall h, h ∈ subscribers s -> sub_accepts h (epoch s + 1) = true) ->
+    exists s' ns, nexec c s (NewEpoch (epoch s + 1)) = Halt (s', ns).
+  Proof.
+    intros (Hr & Hs & _) Ha Hacc. rewrite nexec_new_epoch by assumption. rewrite Ha.
+    replace (epoch s <? epoch s + 1) with true by lia. cbn [andb].
+    replace (forallb _ _) with true; [eauto|]. symmetry. apply forallb_forall.
+    intros h Hh. apply Hacc. by apply elem_of_list_In.
+  Qed.
+
+  (** Rejected counts. *)
+  Lemma bad_count_faults c s n :
+    n <= 0 \/ 255 <= n \/ n = count s -> nexec c s (UpdateSnapshotCount n) = Fault.
+  Proof.
+    intros H. destruct (nexec c s (UpdateSnapshotCount n)) as [[s' ns]|] eqn:He; [|reflexivity].
+    exfalso. cbn [Netmap.nexec] in He. inv_ob He. apply usc_inv in Eo as (Hn & Hne & _). lia.
+  Qed.
+End Corollaries.
